@@ -22,6 +22,10 @@ def abf_conf(case):
           "  fullSamples %d" % case.get("full", 2), "  applyBias %s" % ("on" if case.get("apply", True) else "off")]
     if not case.get("integrate", True):
         L += ["  integrate off"]
+    if case.get("hist"):
+        # periodic output with a history of the shared grids (written by replica 0 only)
+        of = case["freq"] if case["freq"] > 0 else 2
+        L += ["  outputFreq %d" % of, "  historyFreq %d" % of]
     if case.get("script"):
         # sharing is switched on by the script command "cv bias a share" (event "x"), not by the configuration
         L += ["}"]
@@ -529,6 +533,7 @@ def czar_conf(case):
             "  extendedLagrangian on", "  extendedFluctuation 0.5", "  extendedTimeConstant 8", "  extendedTemp 300",
             "  distanceZ {", "    main { atomNumbers 1 }", "    ref { dummyAtom (0,0,0) }", "    axis (0,0,1)", "  }", "}",
             "abf {", "  name a", "  colvars v0", "  fullSamples 2"] + \
+           (["  writeCZARwindowFile on", "  outputFreq %d" % case["freq"], "  historyFreq %d" % case["freq"]] if case.get("hist") else []) + \
            ([] if case.get("script") else ["  shared on", "  sharedFreq %d" % case["freq"]]) + ["}"]
 
 
@@ -593,10 +598,12 @@ def opes_conf(case):
         L += ["  adaptiveSigma on", "  adaptiveSigmaStride %d" % (2 * case["pace"]), "  gaussianSigmaMin 0.01"]
     else:
         L += ["  gaussianSigma 0.125"]
-    if v == "plain":
+    if v in ("plain", "long"):
         L += ["  fixedGaussianSigma on", "  compressionThreshold 0"]
     elif v == "nlist":
-        L += ["  neighborList on", "  compressionThreshold 0"]
+        L += ["  neighborList on", "  compressionThreshold 0"] + (["  neighborListNewHillReset on"] if case.get("nlreset") else [])
+    elif v == "explore":
+        L += ["  explore on", "  biasfactor 5", "  calcWork on", "  compressionThreshold 0"]
     L += ["  multipleReplicas on", "  sharedFreq %d" % case["pace"], "}"]
     return L
 
